@@ -284,6 +284,40 @@ seed("C13-r3-2", "C13", "number2float routes floats and ints through fractions",
 seed("C13-r3-3", "C13", "expansion2mpf stops at the first zero word", "[hi, 0, lo]",
      "C13 quick: expansion2mpf-with-zero-words", first_result="missed (HELD): only expansions produced by mpf2expansion were converted back", strengthened="zero words inserted in front, in the middle and at the end")
 
+# round 3, second batch (properties C01, C02, C03, C07, C09, C14, C15)
+seed("C01-r3-1", "C01", "asin_acos_kernel: the x >= 1 split of a - 1 becomes x > 1", "|Re z| == 1 exactly with Im z = 0 or 0 < |Im z| < sqrt(2 smallest normal)", "C01 quick: ulp-bound:asin / asinh (special-value lattice and W4)")
+seed("C02-r3-1", "C02", "real_acos through a Dekker square whose splitter constant is float32's 2^12+1 for every dtype", "float64 only, 1 - |x| < 0.02 (6 ULP at 0.99, 1e7 ULP at 1 - 6.5e-9)",
+     "C02 quick: real-ulp-bound:acos, rate-over-3ulp:acos (float64 log-uniform sweep and threshold-approach points)",
+     first_result="missed (HELD): float64 was judged on 1500 random bit patterns + neighbourhoods per shard by the scalar oracle; none within 2% of 1",
+     strengthened="float64 judged in bulk: long double libm as tier 1, the multiprecision oracle for every doubtful point; 2 x 400 000 log-uniform points (2^-70..2^70), full-range sweep, t(1 +- 2^-j u) for 14 thresholds and every j < p")
+seed("C02-r3-2", "C02", "real_asinh switches to log 2 + log|x| at a per-dtype 2^(p-2) whose float64 entry is a copy of float32's", "float64, 2^22 <= |x| < 4.9e6 (7-8 ULP)",
+     "C02 quick: real-ulp-bound:asinh, rate-over-3ulp:asinh (float64 log-uniform sweep)", first_result="missed (HELD): as C02-r3-1, no float64 sample in the band", strengthened="as C02-r3-1")
+seed("C02-r3-3", "C02", "absolute as select(z < 0, -z, z)", "x = -0.0: the result has the sign bit set", "C02 quick: real-zero-sign:absolute",
+     first_result="missed (HELD): ULP distance between -0.0 and +0.0 is 0", strengthened="zero results of absolute / square must have the sign bit clear (the odd functions are deliberately not judged on the sign of a zero, see DESIGN)")
+seed("C03-r3-1", "C03", "complex_log orders the two squares of the fast two-sum by y > |x| instead of |y| > |x|", "Im z < 0, |Im z| > |Re z|, |z| within 1e-7..1e-2 (complex64) of the unit circle", "C03 quick: conj:log2, conj:log10, conj:log")
+seed("C03-r3-2", "C03", "real_asinh: the safe_min_limit branch tests x instead of |x|", "a context with the documented tuning parameter safe_min_limit set, |x| above it", "C03 quick: odd-real:asinh:parameterised",
+     first_result="missed (HELD): only default-parameter contexts were expanded", strengthened="oddness of the real algorithms judged under 7 settings of safe_min_limit / safe_max_limit_coefficient")
+seed("C07-r3-1", "C07", "key of a numpy floating constant built from float(value)", "two numpy.longdouble constants that round to the same double (or both overflow / underflow)", "C07 quick: alias-constant-value-or-type",
+     first_result="missed (HELD): no long double (nor last-bit neighbour) values among the generated constants", strengthened="long double values differing beyond 53 bits / beyond the double range, nextafter neighbours in every width, 2^53 / 2^64 +- 1 integers; long double keys exclude the padding bytes")
+seed("C07-r3-3", "C07", "Type.fromobject maps uintN spellings to the signless integer type", "an unsigned and the signed type of one width used for same-named symbols / equal constants", "C07 quick: aliased-different-type:symbol / :constant",
+     first_result="not run before the strengthening (the structural key is read off the result, where the two types are already one)", strengthened="request-level monitor: (name, requested sized type) -> object, over every spelling (strings and numpy classes)")
+seed("C09-r3-1", "C09", "implementations found in the context paths memoised process-wide by the paths' __name__", "two provider objects with one __name__ and different implementations, one process", "C09 quick: text-differs-from-canonical (user:prov1 / user:prov2)",
+     first_result="missed (HELD): every context used paths=[algorithms]", strengthened="two same-named provider classes with different square() among the generated keys")
+seed("C09-r3-2", "C09", "eq/ne operand order of unorderable keys decided by hash()", "eq / ne between a named constant and a number other than 0/1, different PYTHONHASHSEED", "C09 quick: text-differs-from-canonical (user:named_cmp)",
+     first_result="missed (HELD): no generated key compared a named constant with a number", strengthened="user function with four such comparisons among the keys")
+seed("C09-r3-3", "C09", "alternate constant context shared across contexts", "xla_client, two functions sharing a constant subexpression in one process", "C09 quick: text-differs-from-canonical")
+seed("C14-r3-1", "C14", "complex diff_ulp does not forward flush_subnormals to the imaginary parts", "complex arguments, flush mode, imaginary parts subnormal / zero-vs-nonzero / of opposite sign", "C14 quick: complex-max-flush",
+     first_result="missed (HELD): the complex law was judged with flush_subnormals=False only", strengthened="complex distance in flush mode = max of the component distances in flush mode")
+seed("C14-r3-2", "C14", "module default flush mode captured at import (default argument)", "utils.default_flush_subnormals assigned at run time, mode unspecified at the call", "C14 quick: default-flush-switch",
+     first_result="missed (HELD): the switch was never toggled", strengthened="unspecified mode follows the module-level switch as it is at call time (both values, diff_ulp and diff_log2ulp)")
+seed("C14-r3-3", "C14", "diff_log2ulp takes the bit length through math.frexp", "float64 distances within 2^-54 (relative) below a power of two >= 2^54", "C14 quick: log2ulp")
+seed("C15-r3-1", "C15", "array inputs converted in memory order (ravel('K')), results placed in index order", "arrays with ndim >= 2 that are not C-contiguous (Fortran copies, transposes)", "C15 quick: backend-result (forms 3/4: non-contiguous layouts)",
+     first_result="missed (HELD): only 1-D arrays, scalars and .call() lists", strengthened="Fortran-ordered and axes-permuted 2-D / 3-D inputs, result[i] judged against input[i]")
+seed("C15-r3-2", "C15", "fractional extra_prec_multiplier truncated before it is applied", "extra_prec_multiplier 0.5 / 0.75 / 2.5 and a function needing the working precision", "C15 quick: backend-result (sqm1 under fractional settings)",
+     first_result="missed (HELD): integer multipliers only", strengthened="x*x - 1 on inputs whose square fits exactly p + int(p m) + extra bits, under three fractional settings")
+seed("C15-r3-3", "C15", "float16 evaluated in a 24-bit context and rounded a second time", "float16, default settings, the handful of inputs whose value sits next to an 11-bit tie (exp 2, log 1, arctan 3, arcsinh 2 inputs)", "C15 quick: backend-float16-default-result",
+     first_result="missed (HELD): transcendental functions were judged only with >= 2p extra bits", strengthened="exp, log, arctan, arcsinh, sqrt at default settings on every normal float16 input (exhaustive)")
+
 for id_, meta in T.items():
     d = os.path.join(ROOT, id_)
     if not os.path.isdir(d):
